@@ -67,6 +67,10 @@ type nrCase struct {
 	NoState bool `json:"records_without_state,omitempty"`
 	// CallerState: the application's rotation call carries a state option of its own (as a listener's option list may); the record's state, even if absent, wins
 	CallerState bool `json:"rotation_call_carries_state_option,omitempty"`
+	// BreakCurrent: before the request, the server encryption private key of every record the library will
+	// consult is blanked in storage (a damaged record): no record's current shared key can be derived any
+	// more, so nothing - a recorded previous key included - may authenticate a rotation
+	BreakCurrent bool `json:"current_keys_unusable_in_storage,omitempty"`
 }
 
 const nrNone = -100
@@ -899,6 +903,27 @@ func runNRCase(c *engine.Ctx, nc nrCase) {
 			exotic = true
 		}
 	}
+	if nc.BreakCurrent && !nc.Wrap && len(lookup) > 0 {
+		for _, code := range lookup {
+			x := w.rec(code)
+			if x == nil {
+				continue
+			}
+			ni := &types.NodeInformation{Id: x.node.K.KeyID}
+			if err := s.Inner.Load(s.Ctx, ni); err != nil {
+				continue
+			}
+			ni.ServerEncryptionPrivateKeyBytes = nil
+			_ = s.Inner.Remove(s.Ctx, &types.NodeInformation{Id: ni.Id})
+			if err := s.Inner.Store(s.Ctx, ni); err != nil {
+				r.Broken("noderot: raw store of a damaged record: " + err.Error())
+				return
+			}
+		}
+		cands = nil
+		encKind = "current-unusable:" + encKind
+		r.Count("cases_with_unusable_current_keys", 1)
+	}
 	expect := "refuse"
 	switch {
 	case len(cands) > 0 && nc.Inner == "honest":
@@ -1370,6 +1395,7 @@ func runNodeRot(c *engine.Ctx) engine.Result {
 	for i := range cases {
 		cases[i].NoState = i%2 == 1
 		cases[i].CallerState = i%3 == 1
+		cases[i].BreakCurrent = i%7 == 3 && cases[i].History == "single"
 	}
 	engine.ForEach(len(cases), engine.Workers(), func(i int) { runNRCase(c, cases[i]) })
 
